@@ -25,7 +25,7 @@ def run(ctx):
     repo = ctx.repo
     ctx.decided = ['C12.1 failed parse keeps the old matcher and reports', 'C12.2 each command updates its own matcher',
                    'C12.3 stored matchers are simplified', 'C12.4 join: replace vs extend, field-wise',
-                   'C12.5 list semantics: some alternative and no exclusion']
+                   'C12.5 list semantics: some alternative and no exclusion', 'C12.6 simplify drops only constant members']
     ctx.undecided = ['the meaning of the individual alternatives (C05)']
     f_paj = repo.func('Controller.parse_and_join')
     raises_parse = lambda e: ['RuntimeError'] if (e.ftext or '') in ('matcher.parse', 'parse') else ()
@@ -175,5 +175,26 @@ def run(ctx):
                   'a list matches iff some alternative matches and no exclusion does (all of them consulted)',
                   'MatcherList.matches returns %s for alternatives %s / exclusions %s (%s)' % (norm(rv), pos, neg, others))
     ctx.floor('C12.5', nml, 9, 'paths of MatcherList.matches')
+    # ---- C12.6 simplify never drops (or merges) a non-constant alternative / exclusion ----------------------------------------
+    MAP = re.compile(r'^\[(\w+)\.simplify\(\) for \1 in self\.(positive|negative)\]$')
+    FLT = re.compile(r'^\[(\w+) for \1 in self\.(positive|negative) if (?:not \1\.always\(\) is False|\1\.always\(\) is not False)\]$')
+    for q in ('MatcherList.simplify', 'ArgsMatcherList.simplify'):
+        f = repo.func(q)
+        ns = 0
+        for n in f.body_nodes():
+            if isinstance(n, ast.Assign) and isinstance(n.targets[0], ast.Attribute) and norm(n.targets[0]) in ('self.positive', 'self.negative'):
+                ns += 1
+                which = n.targets[0].attr
+                t = norm(n.value)
+                m1, m2 = MAP.match(t), FLT.match(t)
+                ok = bool((m1 and m1.group(2) == which) or (m2 and m2.group(2) == which))
+                if not ok and which == 'positive' and re.match(r'^\[\w+\]$', t):
+                    # collapse to a single always-true alternative
+                    par = n._parent
+                    ok = isinstance(par, ast.If) and re.match(r'^(\w+)\.always\(\) is True$', norm(par.test)) is not None and t == '[%s]' % norm(par.test).split('.')[0]
+                ctx.check(ok, 'C12.6', '%s:%s<-%s' % (q, which, t[:60]), f.loc(n),
+                          'simplify rewrites %s only by simplifying each element, dropping never-matching constants, or collapsing to a single * alternative' % which,
+                          '%s rewrites self.%s as %s: alternatives/exclusions that are not constants can be dropped or merged, so accumulated matchers lose members' % (q, which, t[:100]))
+        ctx.floor('C12.6', ns, 3, 'list rewrites in ' + q)
     return ('path enumeration of parse_and_join (with a modelled parse failure), of join and of MatcherList.matches; typestate of the '
             'stored matchers. Decided: %s. Undecided: %s' % ('; '.join(ctx.decided), '; '.join(ctx.undecided)))
